@@ -106,6 +106,30 @@ def run_worker(ctx, jobs, tag):
 # ----------------------------------------------------------------------------------------------------------------
 # generation
 
+# simulated slave devices (what GET /device answers at that host); every other host refuses the connection
+SIM = {
+    'relay.local': {'name': 'relay', 'display_name': 'Relay', 'version': '1.0', 'api_version': '1.1', 'vendor': 'acme',
+                    'flags': ['expressions', 'listen', 'webhooks']},
+    'meter.local': {'name': 'meter', 'display_name': 'Meter "1"', 'version': '1.0', 'api_version': '1.1', 'vendor': 'acme',
+                    'flags': ['expressions', 'webhooks']},
+    'sensor.local': {'name': 'sensor', 'display_name': 'Battery sensor', 'version': '1.0', 'api_version': '1.1', 'vendor': 'acme',
+                     'flags': ['expressions', 'listen', 'webhooks']},
+    'plain.local': {'name': 'plain', 'display_name': '', 'version': '0.9', 'api_version': '1.0', 'vendor': 'acme',
+                    'flags': ['expressions']},
+}
+
+
+def live_slave(rng, host, mode=None):
+    """an entry for an enabled, reachable device in one of the three sync modes: listening (needs the flag) / polled / neither"""
+    dev = SIM[host]
+    modes = ['polled', 'neither'] + (['listening'] if 'listen' in dev['flags'] else [])
+    mode = mode if mode in modes else rng.choice(modes)
+    poll = rng.choice([10, 30, 60]) if mode == 'polled' else 0
+    return {'enabled': True, 'name': dev['name'], 'scheme': 'http', 'host': host, 'port': 80, 'path': '/',
+            'admin_password_hash': rng.choice([EMPTY_HASH, SOME_HASH]), 'poll_interval': poll, 'listen_enabled': mode == 'listening',
+            'last_sync': -1, 'online': False, 'provisioning': [], 'attrs': dict(dev)}
+
+
 def rstr(rng, maxlen=20):
     s = rng.choice(STRINGS) if rng.random() < 0.8 else ''.join(rng.choice('abc "\\é_-.') for _ in range(rng.randint(0, 10)))
     while len(s.encode('utf-8')) > maxlen:
@@ -192,6 +216,13 @@ def gen_config(rng, hardware, vpool, slave_pool, periph_pool, rich=True):
                        'last_sync': rng.choice([-1, 1700000000]), 'online': False,
                        'provisioning': rng.sample(['display_name', 'name', 'webhooks'], rng.randint(0, 2)),
                        'attrs': {'name': name, 'display_name': rstr(rng), 'flags': ['listen', 'expressions'], 'version': '1.2'}})
+    if slaves and rng.random() < 0.25:
+        # a device that was unreachable when it was added is kept disabled without cached attributes
+        sl = rng.choice(slaves)
+        sl.update(attrs={}, listen_enabled=False)
+    for host in rng.sample(sorted(SIM), rng.choice([0, 0, 1, 2, 3])):
+        slaves.append(live_slave(rng, host))
+    rng.shuffle(slaves)
     # endpoints must be unique
     seen = set()
     slaves = [s for s in slaves if (s['scheme'], s['host'], s['port'], s['path']) not in seen
@@ -202,7 +233,8 @@ def gen_config(rng, hardware, vpool, slave_pool, periph_pool, rich=True):
         for sl in slaves:
             if rng.random() < 0.35:
                 for k in rng.sample(['poll_interval', 'listen_enabled'], rng.randint(1, 2)):
-                    ops.append(['patch_slave', sl['name'], {k: rng.choice([0, 10, 60]) if k == 'poll_interval' else rng.random() < 0.7}])
+                    v = rng.choice([0, 10, 60]) if k == 'poll_interval' else (rng.random() < 0.7 and 'listen' in sl['attrs'].get('flags', []))
+                    ops.append(['patch_slave', sl['name'], {k: v}])
     for name in rng.sample(periph_pool, rng.choice([0, 0, 1, 2])):
         par = {'driver': MOCK_DRIVER, 'dummy_param': rstr(rng)}
         if name is not None:
@@ -378,7 +410,7 @@ def gen_job(rng):
     vpool = ['va', 'vb', 'vc', 'A_1.x-y', 'zz9', 'm', 's1.x', 'garage.door', 'hw9']
     periph_pool = ['pa', 'pb', None]
     rich = rng.random() < 0.7
-    job = {'hardware': hardware,
+    job = {'hardware': hardware, 'sim': SIM,
            'source': gen_config(rng, hardware, vpool, slave_pool, periph_pool, rich),
            'target': gen_config(rng, hardware, vpool, slave_pool, periph_pool, rng.random() < 0.5),
            'mutate': None}
@@ -429,6 +461,14 @@ SLAVE_DEFECTS = [
     ('polling and listening', lambda e: e.update(poll_interval=10, listen_enabled=True)),
     ('no password', lambda e: e.pop('admin_password_hash')),
     ('same endpoint as entry 0 or 1', None),
+    ('listening asked of a disabled device without the listen flag', lambda e: e.update(listen_enabled=True, attrs={'name': e['name'], 'flags': ['expressions']})),
+    # accepted, with the entry added as a disabled device: an enabled entry whose device does not answer / cannot listen
+    ('enabled, device unreachable', lambda e: e.update(enabled=True, host='ghost.local')),
+    ('enabled, listening asked of a device without the listen flag', lambda e: e.update(enabled=True, name='meter', host='meter.local', listen_enabled=True)),
+    # accepted as live devices
+    ('enabled and reachable, sync method unspecified (device can listen)', lambda e: (e.update(enabled=True, name='relay', host='relay.local', poll_interval=0), e.pop('listen_enabled'))),
+    ('enabled and reachable, sync method unspecified (device cannot listen)', lambda e: (e.update(enabled=True, name='plain', host='plain.local', poll_interval=0), e.pop('listen_enabled'))),
+    ('enabled and reachable, neither polling nor listening', lambda e: e.update(enabled=True, name='sensor', host='sensor.local', poll_interval=0, listen_enabled=False)),
 ]
 
 
@@ -447,7 +487,7 @@ def rejection_stream():
                 doc[pos].update(scheme=other['scheme'], host=other['host'], port=other['port'], path=other['path'])
             else:
                 alter(doc[pos])
-            jobs.append({'hardware': [], 'source': [], 'target': target, 'restore': ['devices'],
+            jobs.append({'hardware': [], 'sim': SIM, 'source': [], 'target': target, 'restore': ['devices'],
                          'mutate': [['devices', ['replace', doc]]], 'mutation_kind': 'devices: %s' % label, 'stream': 'rejection'})
     pbase = [{'driver': MOCK_DRIVER, 'dummy_param': 'a', 'name': 'pa'}, {'driver': MOCK_DRIVER, 'dummy_param': 'b', 'name': 'pb'},
              {'driver': MOCK_DRIVER, 'dummy_param': 'c', 'name': 'pc'}]
@@ -629,6 +669,8 @@ def oracle(job, res):
 def canon_list(doc):
     def c(e):
         e = canon(e)
+        if isinstance(e, dict) and 'scheme' in e:
+            e = {k: v for k, v in e.items() if k not in ('online', 'last_sync')}      # a slave entry: not configuration
         if isinstance(e, dict) and isinstance(e.get('provisioning'), list):
             e = dict(e, provisioning=sorted(e['provisioning']))
         return e
@@ -760,7 +802,9 @@ def c_index_err(I, o, kind_of_exc=False):
 
 def c_slaves_case(I, job, res):
     mutated = 'devices' in {name for name, _m in (job.get('mutate') or [])}
-    return '{| sc_sent := %s; sc_mutated := %s; sc_err := %s; sc_flags := (%s, %s); sc_after := %s |}' % (
+    sim = job.get('sim') or {}
+    return '{| sc_reach := %s; sc_sent := %s; sc_mutated := %s; sc_err := %s; sc_flags := (%s, %s); sc_after := %s |}' % (
+        coq.lst(sorted(sim.items()), lambda kv: '(%s, %s)' % (I.s(kv[0]), c_jv(I, canon(kv[1])))),
         coq.lst(canon_list(res['sent']['devices']), lambda e: c_entry(I, e)), coq.boolean(mutated), c_index_err(I, res['put']['devices']),
         coq.boolean(res['flags']['devices'][0]), coq.boolean(res['flags']['devices'][1]),
         coq.lst(canon_list(res['mid_devices']), lambda e: c_entry(I, e)))
